@@ -1,15 +1,16 @@
 #!/bin/bash
 # Sensitivity suite: for every confirmed change in seeded/<id>/ apply patch.diff to a throw-away worktree of /repo
 # and run the quick check of the property it breaks (plus the other checks listed in its meta.json "caught_by").
-# Writes seeded/MATRIX.md. A row "MISSED" means the property's own check no longer detects that change.
+# Writes seeded/MATRIX.md (OUT=<file> elsewhere; ONLY=<regex> restricts the rows; matrixmerge.py merges partial tables). A row "MISSED" means the property's own check no longer detects that change.
 cd "$(cd "$(dirname "$0")" && pwd)"
-out=seeded/MATRIX.md
+out=${OUT:-seeded/MATRIX.md}
 echo "Every stored change applied to a throw-away worktree of /repo ($(git -C /repo rev-parse --short HEAD)) and run through the quick check of the property it breaks (checks as of /verif $(git rev-parse --short HEAD 2>/dev/null || echo snapshot), VERIF_SEED=1)." > $out.tmp
 echo >> $out.tmp
 echo "| seeded change | breaks | own check | other checks that also report it |" >> $out.tmp
 echo "|---|---|---|---|" >> $out.tmp
 for d in seeded/*/; do
   id=$(basename $d); [ -f $d/meta.json ] || continue
+  [ -n "${ONLY:-}" ] && ! echo "$id" | grep -Eq "$ONLY" && continue
   prop=$(python3 -c "import json;print(json.load(open('$d/meta.json'))['breaks_property'])")
   others=$(python3 -c "import json;m=json.load(open('$d/meta.json'));print(' '.join(c for c in m['caught_by'] if c!=m['breaks_property']))")
   [ -n "${OWN_ONLY:-}" ] && others=""
